@@ -90,6 +90,15 @@ func (h *hostEnv) thread(steps uint64) *starlark.Thread {
 	}
 	th.SetMaxExecutionSteps(steps)
 	stime.SetNow(th, func() (gotime.Time, error) { return fixedNow, nil })
+	// the modelled loader (spec/RefSem.tla, LoadedModule): one module with an int, a frozen list and a string
+	th.Load = func(_ *starlark.Thread, module string) (starlark.StringDict, error) {
+		if module == "m.star" {
+			l := starlark.NewList([]starlark.Value{starlark.MakeInt(1), starlark.MakeInt(2)})
+			l.Freeze()
+			return starlark.StringDict{"a": starlark.MakeInt(7), "b": l, "s": starlark.String("str")}, nil
+		}
+		return nil, fmt.Errorf("no such module %s", module)
+	}
 	return th
 }
 
